@@ -36,7 +36,7 @@ RULE = (
     "input/output label clash): every split of the inputs into iterated / zipped / broadcast, lengths 1-4 (some 0, "
     "some unset), 1-4 runs of the SAME node with changed lengths (also unchanged = cache hit), both output forms, "
     "column maps (rename, swap, onto a broadcast label; also NON-renamings: onto a looped label, two outputs onto one "
-    "name, unknown keys, unmapped clashes), use_cache on/off, body nodes on a controlled executor with every "
+    "name, unknown keys, unmapped clashes, a label looped twice), use_cache on/off, body nodes on a controlled executor with every "
     "completion order for <= 4 rows (thorough) / sampled (quick), and on real thread and process pools; plus "
     "dictionary_to_index_maps called directly on arbitrary key lists (duplicates, overlap, missing keys, unsized "
     "data, None). Non-trivial = a run that returned a table of >= 2 rows; distinct by canonical case"
@@ -58,8 +58,6 @@ ASSUMPTIONS = [
     "body function deterministic and argument-pure (values are free terms)",
     "after a refused/failed run the harness clears the for-node's `failed` flag before the next run",
     "looped inputs are python lists (the for-node's own `list` hint rejects anything else at assignment)",
-    "no label is looped twice (iter_on/zip_on duplicate-free and disjoint) at the node level; the index-map helper "
-    "alone is also exercised with duplicated and overlapping key lists",
 ]
 EXHAUSTIVE = {"quick": False, "thorough": True}
 
